@@ -219,6 +219,9 @@ mod verif_driver_assets {
             AssetClass::Naked, AssetClass::Named(b"t".to_vec()), AssetClass::Named(vec![]), AssetClass::Named(b"lovelace".to_vec()), AssetClass::Named(b"ada".to_vec()),
             AssetClass::Defined(vec![7u8; 28], b"x".to_vec()), AssetClass::Defined(vec![], b"x".to_vec()), AssetClass::Defined(vec![7u8; 28], vec![]), AssetClass::Defined(vec![7u8; 28], b"lovelace".to_vec()),
             AssetClass::Defined(vec![7u8; 30], vec![]), AssetClass::Defined(vec![7u8; 56], vec![]), AssetClass::Defined(vec![7u8; 29], b"x".to_vec()), AssetClass::Defined(vec![7u8; 1], vec![]),
+            // names of 32, 33 and 64 bytes; two names that share their first 32 bytes; a long policy-less name
+            AssetClass::Defined(vec![7u8; 28], vec![1u8; 32]), AssetClass::Defined(vec![7u8; 28], vec![1u8; 33]), AssetClass::Defined(vec![7u8; 28], [vec![1u8; 32], vec![2u8; 32]].concat()),
+            AssetClass::Defined(vec![7u8; 28], [vec![1u8; 32], vec![3u8; 1]].concat()), AssetClass::Named(vec![4u8; 40]),
         ];
         let amt = |a: &CanonicalAssets, c: &AssetClass| a.asset_amount(c).unwrap_or(0);
         let prev = std::panic::take_hook();
@@ -265,8 +268,35 @@ mod verif_driver_assets {
                 }
             }
         }
+        // two classes whose names share a long prefix stay two classes through the list form
+        {
+            n += 1;
+            let (c1, c2) = (AssetClass::Defined(vec![7u8; 28], [vec![1u8; 32], vec![2u8; 8]].concat()), AssetClass::Defined(vec![7u8; 28], [vec![1u8; 32], vec![3u8; 8]].concat()));
+            let a = CanonicalAssets::from_class_and_amount(c1.clone(), 3) + CanonicalAssets::from_class_and_amount(c2.clone(), 4);
+            if let Ok(back) = catch_unwind(AssertUnwindSafe(|| { let l: Vec<AssetExpr> = a.clone().into(); CanonicalAssets::from(l) })) {
+                if amt(&back, &c1) != 3 || amt(&back, &c2) != 4 || !(back == a) { witness("c15_assets/round_trip#postcondition", "from", "two classes whose 40-byte names share their first 32 bytes class=long-asset-names".into(), format!("{} / {}", amt(&back, &c1), amt(&back, &c2)), "3 / 4: the same value"); }
+            }
+        }
+        // every constructor keeps the amount it is given, whatever its size (the algebra has no notion of a supply limit)
+        for x in [0i128, 1, -1, 44_999_999_999_999_999, 45_000_000_000_000_000, 45_000_000_000_000_001, -45_000_000_000_000_001, 1 << 62, 1 << 64, -(1 << 64), 1 << 100, i128::MAX, i128::MIN] {
+            n += 1;
+            let r = catch_unwind(AssertUnwindSafe(|| {
+                let naked = CanonicalAssets::from_naked_amount(x);
+                let via_asset = CanonicalAssets::from_asset(None, None, x);
+                let named = CanonicalAssets::from_named_asset(b"t", x);
+                let defined = CanonicalAssets::from_defined_asset(&[7u8; 28], b"x", x);
+                let l: Vec<AssetExpr> = naked.clone().into();
+                let back = CanonicalAssets::from(l);
+                (naked.naked_amount().unwrap_or(0), via_asset.naked_amount().unwrap_or(0), amt(&named, &AssetClass::Named(b"t".to_vec())), amt(&defined, &AssetClass::Defined(vec![7u8; 28], b"x".to_vec())), back.naked_amount().unwrap_or(0))
+            }));
+            match r {
+                Ok(got) => if got != (x, x, x, x, x) { witness("c15_assets/from#postcondition", "from", format!("constructors given the amount {x} class=amount-altered-by-a-constructor"), format!("{got:?}"), "the amount given, from every constructor and through the list form"); },
+                Err(_) => witness("c15_assets/from#reachable-panic", "from", format!("constructors given the amount {x}"), "panic".into(), "no panic"),
+            }
+        }
         std::panic::set_hook(prev);
         println!("VERIF-CASES fn=neg n={n}");
+        println!("VERIF-CASES fn=from n={n}");
         println!("VERIF-CASES fn=from_named_asset n={n}");
     }
 
